@@ -339,6 +339,9 @@ impl Prop for C10 {
             GenSpec::random("big-records", tier.pick(24, 400)),
             // interpreter-sized cases for the Miri leg (tools/legs.sh runs them one by one through `lvh one`); not part of the native plan
             GenSpec::random("miri-sample", 0),
+            // instruction-count leg (tools/irleg.sh runs these under valgrind --tool=cachegrind): one parse of a stream of 512 * 2^(n/2) elements;
+            // odd n: the same stream with its last record corrupted (error path). Not part of the native plan.
+            GenSpec::enumerated("ir-scale", 0),
         ]
     }
     fn run_case(&self, cx: &mut Cx) {
@@ -493,6 +496,22 @@ impl Prop for C10 {
                 }
                 self.probe(cx, &v, false, "miri", &mut st);
                 cx.nontrivial(crate::rt::prng::byteshash(&bytes));
+            }
+            "ir-scale" => {
+                let n = 512usize << (cx.n / 2);
+                let mut rng = Rng::new(0x1A5C); // the same element stream at every size (prefix-extended), independent of the seed
+                let cfg = GenCfg { strclass: StrClass::Ascii, maxstr: 8, wide_reals: false, max_structs: 1, max_elems: 0, max_pts: 5 };
+                let elems: Vec<NElem> = (0..n).map(|_| { let kind = rng.usize(7); rand_elem(&mut rng, &cfg, kind, None, None, Some(0), &[]) }).collect();
+                let ast = NLib { version: 600, name: b"ir".to_vec(), units: (encode_ref(1e-3).unwrap(), encode_ref(1e-9).unwrap()), structs: vec![NStruct { dates: [0; 12], name: b"s".to_vec(), elems }], ..Default::default() };
+                let mut bytes = encode(&ast, &EncOpts::default()).out;
+                if cx.n % 2 == 1 {
+                    let l = bytes.len();
+                    bytes[l - 2] = 0x7F; // ENDLIB's record type replaced: the reader walks the whole stream, then fails
+                }
+                cx.eval();
+                let r = guard(|| GdsLibrary::from_bytes(&bytes));
+                cx.count(match r { Ok(Ok(_)) => "ir_scale_accepted", Ok(Err(_)) => "ir_scale_rejected", Err(_) => "ir_scale_panicked" });
+                cx.max("max.ir_scale_bytes", bytes.len() as u64);
             }
             "scaling" => {
                 // streams of 2^k elements: steps per byte must stay within the same budget at every size
